@@ -370,4 +370,42 @@ class ConcatParentSet(Contract):
         ctx.oblige("a-refusal-changes-nothing", e["attrs"].items == e["table"] and not ctx.path.events and e["me"].attrs.get("_parent") is None, kind="post-exc")
 
 
-CONTRACTS = [ConcatNameSet, ConcatParentSet, FileNameSet, ClearArrays, PropertyGroupInitStub, CreatePropertyGroupMembers, DrillholeClip, ComponentsReadOnly]
+class PropertyGroupMembersSet(Contract):
+    """PropertyGroup.properties (setter, used once, at creation): the member list holds each data
+    identifier once, in the order of first mention, whatever spelling (UUID or text) the caller used;
+    anything that is not an identifier is refused; an existing list is not replaced."""
+    target = "geoh5py/groups/property_group.py::PropertyGroup.properties.fset"
+    props = ("C05", "C02")
+    lenient = True
+
+    def cases(self):
+        return ["empty", "one", "distinct", "repeated", "repeated-as-text", "not-identifiers", "already-set", "not-a-list"]
+
+    def setup(self, ctx):
+        import uuid
+
+        from geoh5py.groups import PropertyGroup
+
+        a, b = uuid.UUID(int=11), uuid.UUID(int=12)
+        me = Opaque("self", cls=PropertyGroup)
+        me.attrs["_properties"] = PList([b]) if ctx.case == "already-set" else None
+        arg = {"empty": [], "one": [a], "distinct": [a, b], "repeated": [a, a, b, a], "repeated-as-text": [a, str(a), b, "{" + str(b) + "}"], "not-identifiers": [a, 5], "already-set": [a], "not-a-list": 7}[ctx.case]
+        ctx.env.update(me=me, a=a, b=b)
+        return [me, PList(arg) if isinstance(arg, list) else arg], {}
+
+    def post(self, ctx, result):
+        e = ctx.env
+        got = e["me"].attrs.get("_properties")
+        items = None if got is None else list(getattr(got, "items", got))
+        want = {"empty": [], "one": [e["a"]], "distinct": [e["a"], e["b"]], "repeated": [e["a"], e["b"]], "repeated-as-text": [e["a"], e["b"]], "not-a-list": None}.get(ctx.case, "refused")
+        if want == "refused":
+            ctx.oblige("an-entry-that-is-no-identifier-or-a-second-assignment-is-refused", False, note=f"accepted: {items}")
+            return
+        ctx.oblige("each-member-is-listed-once-in-the-order-of-first-mention", items == want,
+                   note=f"members stored: {items}; a member listed twice is scrubbed once when its data is removed, and the group goes on naming removed data")
+
+    def post_raises(self, ctx, sig):
+        ctx.oblige("only-a-bad-entry-or-a-second-assignment-is-refused", (ctx.case == "not-identifiers" and sig.exc_class in (TypeError, ValueError)) or (ctx.case == "already-set" and sig.exc_class is UserWarning), kind="post-exc")
+
+
+CONTRACTS = [ConcatNameSet, PropertyGroupMembersSet, ConcatParentSet, FileNameSet, ClearArrays, PropertyGroupInitStub, CreatePropertyGroupMembers, DrillholeClip, ComponentsReadOnly]
